@@ -172,6 +172,7 @@ package channels
 //@   ensures [cleanup] result == (st == datatransfer.Completing || st == datatransfer.Failing || st == datatransfer.Cancelling)
 
 //@ func (*channels.Channels).SetDataLimit {C02,C08}
+//@   acquires {C20} channels.progressCache.lk
 //@   modifies c.progressCache.values
 //@   ensures [event] seq(progressCache.setDataLimit, send) && called(send, _, chid, datatransfer.SetDataLimit) && all(send, len($3) == 1 && elem($3, 0) == dataLimit)
 //@   ensures [cache-same-limit] all(progressCache.setDataLimit, $1 == chid && $2 == dataLimit)
@@ -192,11 +193,14 @@ package channels
 //@       (*$2.(*internal.ChannelState)).Responder == (dataSender == initiator ? dataReceiver : dataSender))
 
 //@ func (*channels.Channels).DataSent {C07,C08}
+//@   acquires {C20} channels.blockIndexCache.lk, channels.progressCache.lk
 //@   ensures [wiring] seq(Channels.fireProgressEvent) && all(Channels.fireProgressEvent, $1 == chid && $2 == datatransfer.DataSent && $3 == datatransfer.DataSentProgress && $4 == delta && $5 == index && $6 == unique && $8 == nil)
 //@   modifies c.blockIndexCache.values, c.progressCache.values
 //@ func (*channels.Channels).DataQueued {C07,C08}
+//@   acquires {C20} channels.blockIndexCache.lk, channels.progressCache.lk
 //@   modifies c.blockIndexCache.values, c.progressCache.values
 //@ func (*channels.Channels).DataReceived {C07,C08}
+//@   acquires {C20} channels.blockIndexCache.lk, channels.progressCache.lk
 //@   modifies c.blockIndexCache.values, c.progressCache.values
 
 // ---------------------------------------------------------------------------------------------
@@ -322,6 +326,7 @@ package channels
 //@ lemma [limit-touched-only-by-its-event] {C08}: foreach E in (*) except (SetDataLimit) :: forall s State :: step(s, E).DataLimit == s.DataLimit
 
 //@ func (*channels.blockIndexCache).getValue {C07,C20}
+//@   acquires {C20} blockIndexCache.lk
 //@   requires readFromOriginal != nil
 //@   modifies bic.values
 //@   ensures [hit] old(has(bic.values, cacheKey{evt: evt, chid: chid})) && old(bic.values[cacheKey{evt: evt, chid: chid}]) != nil ==>
@@ -334,6 +339,7 @@ package channels
 //@   ensures [at-most-one-read] calls(dyn.readIndexFn) <= 1
 
 //@ func (*channels.blockIndexCache).updateIfGreater {C07}
+//@   acquires {C20} channels.blockIndexCache.lk
 //@   requires readFromOriginal != nil
 //@   modifies bic.values, *ret(blockIndexCache.getValue, 0) -- the cell belongs to the map's footprint
 //@   ensures [advance] calls(blockIndexCache.getValue) == 1 && ret(blockIndexCache.getValue, 1) == nil ==>
@@ -343,6 +349,7 @@ package channels
 //@   ensures [same-key] called(blockIndexCache.getValue, _, evt, chid, _)
 
 //@ func (*channels.progressCache).getValue {C08,C20}
+//@   acquires {C20} progressCache.lk
 //@   requires readProgress != nil
 //@   modifies pc.values
 //@   guarantee [insert-seeded] forall k datatransfer.ChannelID :: has(self.values, k) && !old(has(self.values, k)) ==>
@@ -357,6 +364,7 @@ package channels
 //@   ensures [nonnil] err == nil ==> result0.progress != nil
 
 //@ func (*channels.progressCache).progress {C08}
+//@   acquires {C20} channels.progressCache.lk
 //@   requires readFromOriginal != nil
 //@   modifies pc.values, *ret(progressCache.getValue, 0).progress
 //@   ensures [rule] calls(progressCache.getValue) == 1 && ret(progressCache.getValue, 1) == nil ==> err == nil &&
@@ -367,6 +375,7 @@ package channels
 //@   ensures [same-key] called(progressCache.getValue, _, chid, _)
 
 //@ func (*channels.progressCache).setDataLimit {C08,C20}
+//@   acquires {C20} progressCache.lk
 //@   modifies pc.values
 //@   guarantee [no-insert] forall k datatransfer.ChannelID :: has(self.values, k) ==> old(has(self.values, k)) -- entries are only created by getValue, seeded from the durable (limit, progress)
 //@   guarantee [only-this-limit] forall k datatransfer.ChannelID :: old(has(self.values, k)) && k != chid ==> self.values[k] == old(self.values[k])
@@ -374,18 +383,33 @@ package channels
 //@       pc.values[chid].progress == old(pc.values[chid].progress)
 //@   ensures [untouched] untouched
 
+//@ extern func dyn.readIndexFn
+//@   acquires {C20} nothing -- the readers handed to the caches (bound methods of Channels below: `refines`) read the persisted state, no module lock
+//@ extern func dyn.readProgressFn
+//@   acquires {C20} nothing
 //@ func (*channels.Channels).getQueuedIndex {C07}
+//@   refines dyn.readIndexFn
+//@   acquires {C20} nothing
 //@   ensures [accessor] err == nil ==> result0 == ret(GetByID, 0).QueuedCidsTotal() && called(GetByID, _, _, chid)
 //@ func (*channels.Channels).getSentIndex {C07}
+//@   refines dyn.readIndexFn
+//@   acquires {C20} nothing
 //@   ensures [accessor] err == nil ==> result0 == ret(GetByID, 0).SentCidsTotal() && called(GetByID, _, _, chid)
 //@ func (*channels.Channels).getReceivedIndex {C07}
+//@   refines dyn.readIndexFn
+//@   acquires {C20} nothing
 //@   ensures [accessor] err == nil ==> result0 == ret(GetByID, 0).ReceivedCidsTotal() && called(GetByID, _, _, chid)
 //@ func (*channels.Channels).getQueuedProgress {C08}
+//@   refines dyn.readProgressFn
+//@   acquires {C20} nothing
 //@   ensures [pair] result2 == nil ==> result0 == ret(GetByID, 0).DataLimit() && result1 == ret(GetByID, 0).Queued() && called(GetByID, _, _, chid)
 //@ func (*channels.Channels).getReceivedProgress {C08}
+//@   refines dyn.readProgressFn
+//@   acquires {C20} nothing
 //@   ensures [pair] result2 == nil ==> result0 == ret(GetByID, 0).DataLimit() && result1 == ret(GetByID, 0).Received() && called(GetByID, _, _, chid)
 
 //@ func (*channels.Channels).checkEvents {C07,C08}
+//@   acquires {C20} channels.blockIndexCache.lk, channels.progressCache.lk
 //@   requires readFromOriginal != nil
 //@   modifies c.blockIndexCache.values, c.progressCache.values
 //@   ensures [not-unique] !unique ==> !pause && !progress && err == nil && untouched
@@ -398,6 +422,7 @@ package channels
 //@   ensures [no-limit-check] readProgress == nil ==> never(progressCache.progress) && !pause
 
 //@ func (*channels.Channels).fireProgressEvent {C07,C08,C01}
+//@   acquires {C20} channels.blockIndexCache.lk, channels.progressCache.lk
 //@   requires readFromOriginal != nil
 //@   requires [distinct-codes] evt != progressEvt && evt != datatransfer.DataLimitExceeded && progressEvt != datatransfer.DataLimitExceeded
 //@   modifies c.blockIndexCache.values, c.progressCache.values
@@ -440,6 +465,7 @@ package channels
 
 //@ extern func (github.com/filecoin-project/go-statemachine/fsm.Context).Trigger
 //@ func channels.cleanupConnection {C09}
+//@   acquires {C20} graphsync.Transport.dtChannelsLk, graphsync.dtChannel.lk, graphsync.dtChannel.optionsLk, graphsync.requestIDToChannelIDMap.lk, tracing.SpansIndex.spansLk, transportoptions.TransportOptions.optionsLk
 //@   requires env != nil && ctx != nil
 //@   ensures [once] seq(ChannelEnvironment.ID, ChannelEnvironment.CleanupChannel, ChannelEnvironment.Unprotect, Context.Trigger)
 //@   ensures [release] all(ChannelEnvironment.CleanupChannel, $1 == datatransfer.ChannelID{ID: channel.TransferID, Initiator: channel.Initiator, Responder: channel.Responder})
@@ -462,6 +488,14 @@ package channels
 //@     foreach S in statuses(Cancelling, Failing) :: forall s State :: s.Status == S ==> step(s, E).Status == S
 //@     -- while cancelling / failing, only the ending events themselves can move the channel: late protocol events are recorded, never acted on
 
+//@ lemma [restart-resumes-cleanup] {C06,C09}: foreach S in statuses(Cancelling, Failing, Completing) :: forall s State ::
+//@     s.Status == S ==> applied(s, CompleteCleanupOnRestart) && entryRuns(s, CompleteCleanupOnRestart) && step(s, CompleteCleanupOnRestart).Status == S
+//@     -- a channel persisted while cleaning up: the restart event is accepted in each cleanup status and re-runs that status's entry function
+
 //@ func (*channels.Channels).InProgress {C06}
 //@   loop 0 invariant [listing] $i >= 0
 //@   ensures [lists-through-group] calls(Group.List) == 1 && only(Group.List)
+
+// lock effects of this package's interfaces (C20)
+//@ extern func (channels.ChannelEnvironment).CleanupChannel
+//@   acquires {C20} graphsync.Transport.dtChannelsLk, graphsync.dtChannel.lk, graphsync.dtChannel.optionsLk, graphsync.requestIDToChannelIDMap.lk, tracing.SpansIndex.spansLk, transportoptions.TransportOptions.optionsLk
